@@ -590,7 +590,10 @@ func isPrefixOf(got, all [][]byte) bool {
 
 func directC04(tt *testing.T, tape *core.Tape, tier string, r *RunResult) {
 	small := tape.Bool(1, 2, "small.bodies")
-	sc := genExchange(tape, 3, small, false)
+	// (a third of the exchanges with a read limit on the handler, an over-limit
+	// message in the middle of a bidi request and a handler that carries on
+	// receiving: a cut inside the message being skipped is a cut all the same)
+	sc := genExchange(tape, 3, small, tape.Bool(1, 3, "oversize.exchange"))
 	sc.Prop = "C04"
 	if sc.Calls[0].Kind == KBidi && tape.Bool(1, 2, "keep.receiving") {
 		// a handler that calls Receive again after a failed one (logging the
@@ -720,6 +723,39 @@ func directC04(tt *testing.T, tape *core.Tape, tier string, r *RunResult) {
 			}
 		}
 	}
+	// ---- gRPC (status in HTTP trailers) behind an HTTPClient that builds its
+	// responses in memory: Response.Trailer is complete from the start, so it
+	// proves nothing about the body - a body that fails is a failed call
+	if rec.proto == PGRPC && len(rec.trailer) > 0 {
+		for _, k := range offs {
+			for _, cond := range cutConds[1:] {
+				sc2 := rec.clientRedelivery(rec.respBody[:k], cond.err, rec.trailer, nil, (k+len(cond.name))%2 == 0)
+				sc2.Calls[0].Canned.TrailerUpFront = true
+				w, st, panics := subRun(sc2, core.ReplayTape(nil))
+				deliveries++
+				r.Steps += w.S.Steps
+				where := fmt.Sprintf("response body cut at %d/%d, ending with %s, trailers present from the start", k, len(rec.respBody), cond.name)
+				if len(panics) > 0 {
+					addV("response/panic", where+": "+panics[0])
+					continue
+				}
+				if st != core.Done {
+					addV("response/hang", where+": "+w.hangReport())
+					continue
+				}
+				o := w.Obs[0]
+				r.Probes["cuts_with_trailers_up_front"]++
+				if !o.FinalSet || o.Final == nil {
+					addV("response/success-on-failed-body", where+fmt.Sprintf(": the call reported success (%d messages) although reading the body failed", len(o.Recv)))
+					continue
+				}
+				var ce *connect.Error
+				if !errors.As(o.Final, &ce) || ce.Code() == 0 {
+					addV("response/uncoded-error", where+fmt.Sprintf(": %v", o.Final))
+				}
+			}
+		}
+	}
 	// ---- request cut at every offset
 	offs, exh = offsets(len(rec.reqBody), envelopeBoundaries(rec.reqBody, streaming))
 	complete = complete && exh
@@ -765,7 +801,7 @@ func directC04(tt *testing.T, tape *core.Tape, tier string, r *RunResult) {
 				r.Probes["dontcare_unary_connect_clean_cut"]++
 				continue
 			}
-			if !isPrefixOf(withoutRejected(o.H.Recv), rec.handler.Msgs) {
+			if !isPrefixOf(withoutRejected(o.H.Recv), withoutRejected(rec.handler.Msgs)) {
 				addV("request/messages-not-a-prefix", where+": the handler received messages that are not a prefix of those sent")
 			}
 			midMessage := !atBoundary(k) || !clean
@@ -890,7 +926,7 @@ func directC04(tt *testing.T, tape *core.Tape, tier string, r *RunResult) {
 			}
 			o := w.Obs[0]
 			r.Probes["uplink_failures"]++
-			if !isPrefixOf(withoutRejected(o.H.Recv), rec.handler.Msgs) {
+			if !isPrefixOf(withoutRejected(o.H.Recv), withoutRejected(rec.handler.Msgs)) {
 				addV("uplink-failure/messages-not-a-prefix", where)
 			}
 			if k < len(rec.reqBody) {
